@@ -87,12 +87,12 @@ def core_cases(run, T):
         pres = ["-", "+", "NOT"] + (["~", "@", "!!", "|/", "||/"] if T["flags"][d]["is_pg"] else [])
         for a in pres:
             for b in pres:
-                for tail in ("x1", "'s1'", "(x1)", "x1 :: INT", "x1 !"):
+                for tail in ("x1", "'s1'", "(x1)", "x1 :: INT", "x1 !", "x1 * x2", "x1 + x2", "x1 IS NULL", "x1 || x2 ! * x3"):
                     extra.append({"dialect": d, "sql": "%s %s %s" % (a, b, tail), "stream": "prefix-pair"})
                 extra.append({"dialect": d, "sql": "x2 %s %s %s x1" % ("-", a, b), "stream": "prefix-pair"})
                 for c3 in pres:
                     extra.append({"dialect": d, "sql": "%s %s %s x1" % (a, b, c3), "stream": "prefix-triple"})
-        for tail in ("x1 ! !", "x1 ! ! !", "x1 ! :: INT !", "x1 ! = x2", "x1 ! [x2]", "- x1 !", "x1 ! IS NULL"):
+        for tail in ("x1 ! !", "x1 ! ! !", "x1 ! :: INT !", "x1 ! = x2", "x1 ! [x2]", "- x1 !", "x1 ! IS NULL", "(x1 + x2 !) !", "x1 + x2 ! !", "- x1 ! !"):
             extra.append({"dialect": d, "sql": tail, "stream": "postfix-pair"})
         for kw in ("LIKE", "ILIKE", "NOT LIKE", "NOT ILIKE", "SIMILAR TO"):
             for anyk in ("", "ANY ") if "SIMILAR" not in kw else ("",):
